@@ -20,7 +20,7 @@ func (s *Sim) galHist() string {
 			secs = append(secs, gal.S(x))
 		}
 	}
-	return gal.Rec("h_cfg", s.w.galCfg(), "h_db", s.w.galDB(), "h_secrets", gal.L(secs), "h_steps", gal.L(steps))
+	return gal.Rec("h_cfg", s.w.galCfg(), "h_db", s.w.galDB(), "h_secrets", gal.L(secs), "h_abs", gal.Z(int64(s.w.Abs)), "h_idle", gal.Z(int64(s.w.Idle)), "h_steps", gal.L(steps))
 }
 
 func (s *Sim) descr(extra map[string]any) any {
@@ -131,6 +131,7 @@ func runHistoriesWith(c *Ctx, salt int64, p histProfile, each func(s *Sim) map[s
 			t := p.Timeouts[r.Intn(len(p.Timeouts))]
 			o.Abs, o.Idle = t[0], t[1]
 		}
+		o.DebugLog = (i/3)%2 == 1
 		w := newWorld(c.Seed*7919+int64(i), o)
 		s := newSim(w, r)
 		n := p.MinLen + r.Intn(p.MaxLen-p.MinLen+1)
